@@ -15,6 +15,12 @@ Example ex_finished_source_not_closed_again :
   (q_cb_calls s, quiescent s, q_finished s) = (0%nat, true, true).
 Proof. reflexivity. Qed.
 
+Example ex_cancellation_turned_into_failure_closes_once :
+  let c := {| q_eager := true; q_has_cb := true; q_cb_async := true |} in
+  let s := qrun c (qinit c) [QAbort; QFailCancelled; QTick] in
+  (q_cb_calls s, quiescent s, q_aborted s) = (1%nat, true, true).
+Proof. reflexivity. Qed.
+
 Example ex_failure_waits_for_earlier_items :
   let c := {| q_eager := true; q_has_cb := true; q_cb_async := false |} in
   let s1 := qrun c (qinit c) [QPushFut; QFail; QTick] in
@@ -97,12 +103,16 @@ Proof.
     + intro E. specialize (H5 E). discriminate.
   - (* QFail *) destruct s as [p cr ab fi n pc cl k d]. unfold qinv, applicable, producing in *; cbn in *.
     destruct H as (H1 & H2 & H3 & H4 & H5 & H6).
-    destruct p; try discriminate. destruct cr; try discriminate.
-    specialize (H6 eq_refl eq_refl). subst.
-    repeat split; intros; auto; try discriminate.
-    + destruct (H2 H) as (? & ? & ?). auto.
-    + destruct (H2 H) as (? & ? & ?). auto.
-    + destruct (H2 H) as (? & ? & ?). discriminate.
+    destruct p; try discriminate.
+    assert (Hf : fi = false).
+    { destruct fi; auto. destruct (H2 eq_refl) as (? & ? & ?). discriminate. }
+    subst fi. repeat split; intros; auto; try discriminate.
+  - (* QFailCancelled *) destruct s as [p cr ab fi n pc cl k d]. unfold qinv, applicable in *; cbn in *.
+    destruct H as (H1 & H2 & H3 & H4 & H5 & H6).
+    destruct p; try discriminate.
+    assert (Hf : fi = false).
+    { destruct fi; auto. destruct (H2 eq_refl) as (? & ? & ?). discriminate. }
+    subst fi. repeat split; intros; auto; try discriminate.
   - apply qinv_abort, H.
   - apply qinv_settle, H.
 Qed.
